@@ -6,24 +6,31 @@
 (* alive so identities are never reused), whether its source / class /     *)
 (* engine / rendered output equal those of a fresh compilation of key k,   *)
 (* and the projected LRU order of the real cache; clear.                   *)
+(* Component level: a trace may carry a class table `classes` (entry c =    *)
+(* [path, src] of component class c; several classes share a path) and      *)
+(* events render(c): class c was rendered; same observations, the flags     *)
+(* compare with a fresh compilation of c's OWN template, and `fwd` lists     *)
+(* the template numbers (src) of the cached entries.                        *)
 (***************************************************************************)
 EXTENDS TemplateCache, TLC, Json, IOUtils, SequencesExt
 
 Traces == ndJsonDeserialize(IOEnv.IN)
 
 VARIABLES tid, l, phase
-trVars == <<order, val, ret, made, got, req, tid, l, phase>>
+trVars == <<order, val, ret, made, got, req, cls, tid, l, phase>>
 
 Events == Traces[tid].events
 Ev == Events[l]
+CT == Traces[tid].classes      \* only evaluated for traces with render events
 
 TrInit == TCInit /\ tid = 1 /\ l = 1 /\ phase = "step"
 
 NextTrace == /\ tid' = tid + 1 /\ l' = 1 /\ phase' = "step"
-             /\ order' = <<>> /\ val' = <<>> /\ ret' = None /\ made' = <<>> /\ got' = 0 /\ req' = 0
+             /\ order' = <<>> /\ val' = <<>> /\ ret' = None /\ made' = <<>> /\ got' = 0 /\ req' = 0 /\ cls' = 0
 
 SpecAction(e) ==
   CASE e.op = "compile" -> Compile(e.k)
+    [] e.op = "render"  -> RenderClass(CT, e.c)
     [] e.op = "clear"   -> ClearCache
 
 Step == /\ tid <= Len(Traces) /\ phase = "step" /\ l <= Len(Events)
@@ -32,15 +39,18 @@ Step == /\ tid <= Len(Traces) /\ phase = "step" /\ l <= Len(Events)
 
 Failing(e) ==
   IF e.op = "clear" THEN (IF e.fwd = <<>> THEN {} ELSE {"clear_left_entries"}) ELSE
-  {c \in {"identity", "transparent", "lru_order", "bounded"} :
+  {c \in {"identity", "transparent", "lru_order", "bounded", "own_template"} :
      CASE c = "identity"    -> got # e.obj
        [] c = "transparent" -> ~(e.src_ok /\ e.cls_ok /\ e.eng_ok /\ e.out_ok)
-       [] c = "lru_order"   -> order # e.fwd
-       [] c = "bounded"     -> ~Bounded}
+       [] c = "lru_order"   -> IF e.op = "render"
+                               THEN [i \in 1..Len(order) |-> SrcOfKey(order[i])] # e.fwd
+                               ELSE order # e.fwd
+       [] c = "bounded"     -> ~Bounded
+       [] c = "own_template" -> e.op = "render" /\ ~OwnTemplate(CT)}
 
 Cmp == /\ tid <= Len(Traces) /\ phase = "cmp"
        /\ IF Failing(Ev) = {}
-          THEN /\ l' = l + 1 /\ phase' = "step" /\ UNCHANGED <<order, val, ret, made, got, req, tid>>
+          THEN /\ l' = l + 1 /\ phase' = "step" /\ UNCHANGED <<order, val, ret, made, got, req, cls, tid>>
           ELSE /\ PrintT(<<"REJECT", Traces[tid].id, l, Failing(Ev)>>)
                /\ NextTrace
 
